@@ -22,6 +22,10 @@ pub fn body_alphabet(full: bool) -> Vec<ValD> {
         ValD::Str(s("")),
         m(vec![Obs::U(1)], vec![]),
         m(vec![Obs::U(1)], vec![(s("k"), s("v"))]),
+        // one dimension set written in two orders (the same set: a second value under the same
+        // name in it is a duplicate)
+        m(vec![Obs::U(1)], vec![(s("j"), s("x")), (s("k"), s("v"))]),
+        m(vec![Obs::U(2)], vec![(s("k"), s("v")), (s("j"), s("x"))]),
     ];
     if full {
         v.extend([
